@@ -272,13 +272,21 @@ def main(argv=None):
     if counters:
         print("monitor events: " + ", ".join(f"{k}={v}" for k, v in sorted(counters.items())))
     if new_violations:
-        for idx, res, unlisted in new_violations[:25]:
+        bykey = {}
+        for idx, res, unlisted in new_violations:
+            for v in unlisted:
+                bykey.setdefault(v.get("key"), []).append((idx, v))
+        for key, lst in sorted(bykey.items()):
+            print(f"  violation mechanism [{key}]: {len(lst)} case(s); first: case {lst[0][0]}: {str(lst[0][1].get('msg'))[:400]}")
+            if lst[0][1].get("history"):
+                print(f"     history: {lst[0][1]['history']}")
+        for idx, res, unlisted in new_violations[:8]:
             path = write_replay(prop, cases[idx], res)
             msg = "; ".join(f"[{v.get('key')}] {v.get('msg')}" for v in unlisted[:3])
             print(f"VIOLATION property={prop} replay={path}")
             print(f"  case {idx}: {msg[:600]}")
-        if len(new_violations) > 25:
-            print(f"  ... and {len(new_violations) - 25} more violating cases")
+        if len(new_violations) > 8:
+            print(f"  ... and {len(new_violations) - 8} more violating cases")
         return 1
     # inconclusive conditions
     reasons = []
@@ -286,7 +294,7 @@ def main(argv=None):
         reasons.append(inconclusive_reason)
     if evaluations == 0:
         reasons.append("no case was evaluated")
-    if len(features) < 2:
+    if coverage["distinct_nontrivial"] < 2:
         reasons.append("fewer than 2 distinct non-trivial cases observed")
     if missing:
         reasons.append(f"{len(missing)} cases lost (worker crash/timeout {crashed}) {logs[-800:]}")
